@@ -293,7 +293,7 @@ def extract_struct(repo, spec):
     return t
 
 
-def assemble(repo):
+def assemble(repo, demote=()):
     specs = load_specs()
     imports = ["use vstd::prelude::*;", "use vstd::std_specs::cmp::PartialEqSpec;",
                "use vstd::std_specs::maybe_uninit::*;", "use vstd::std_specs::iter::IteratorSpec;",
@@ -331,6 +331,10 @@ def assemble(repo):
     for f in fns:
         first = sum(x.count("\n") + 1 for x in out) + 1
         blk = [f["header"] + " {"]
+        if f["name"] in demote:
+            # this function's body did not get through the Verus front end on this run: keep its
+            # contract (assumed) so that its callers are still checked, and report it as undecided
+            f["trusted"], f["omit_body"], f["demoted"] = True, True, True
         if f["trusted"]:
             blk.append("    #[verifier::external_body]")
         blk.append("    " + f["sig"])
@@ -401,23 +405,39 @@ def run_for(prop, tier, only=None):
         relevant = [s for s in relevant if only in s["name"]] or relevant
     if not relevant:
         return res
-    try:
-        text, fns, lost, linemap = assemble(vf.REPO)
-    except vf.Undecided as e:
-        res["undecided"].append({"function": "(extraction)", "why": str(e)})
-        return res
-    except Exception as e:  # noqa
-        res["undecided"].append({"function": "(extraction)", "why": repr(e)})
-        return res
-    work = tempfile.mkdtemp(prefix="micromap-verus-", dir=os.environ.get("VERIF_TMP", "/tmp"))
-    try:
-        path = os.path.join(work, "micromap_core.rs")
-        open(path, "w").write(text)
-        r = vf.run_verus(path)
-        if os.environ.get("VERIF_KEEP_VERUS"):
-            shutil.copy(path, os.environ["VERIF_KEEP_VERUS"])
-    finally:
-        shutil.rmtree(work, ignore_errors=True)
+    demoted = {}
+    for attempt in range(4):
+        try:
+            text, fns, lost, linemap = assemble(vf.REPO, demote=set(demoted))
+        except vf.Undecided as e:
+            res["undecided"].append({"function": "(extraction)", "why": str(e)})
+            return res
+        except Exception as e:  # noqa
+            res["undecided"].append({"function": "(extraction)", "why": repr(e)})
+            return res
+        work = tempfile.mkdtemp(prefix="micromap-verus-", dir=os.environ.get("VERIF_TMP", "/tmp"))
+        try:
+            path = os.path.join(work, "micromap_core.rs")
+            open(path, "w").write(text)
+            r = vf.run_verus(path)
+            if os.environ.get("VERIF_KEEP_VERUS"):
+                shutil.copy(path, os.environ["VERIF_KEEP_VERUS"])
+        finally:
+            shutil.rmtree(work, ignore_errors=True)
+        # a body that the front end rejects (calls a new helper, uses an unsupported construct) takes the
+        # whole file down: demote exactly those functions to their contracts and try again
+        if r["status"] != "ran" or r.get("json") is None:
+            break
+        errs0 = parse_errors(r["stderr"], linemap, "micromap_core.rs")
+        hard0 = [e for e in errs0 if not SEMANTIC.search(e["msg"]) and not PROOF_STRUCTURE.search(e["msg"])]
+        ran_smt = bool(r["json"].get("times-ms", {}).get("smt", {}).get("smt-run-module-times"))
+        blame = {e["fn"]["name"]: e["msg"] for e in hard0 if e["fn"] is not None and not e["fn"]["trusted"]}
+        if (r["json"].get("verification-results", {}).get("encountered-vir-error") or (hard0 and not ran_smt)) and blame:
+            demoted.update(blame)
+            continue
+        break
+    for nm, why in demoted.items():
+        res["undecided"].append({"function": nm, "why": "verus front end rejected this function's extracted text (its contract is kept as an assumption for its callers): " + why[:300]})
     res["cmd"] = "verus micromap_core.rs --output-json --time --multiple-errors 30 (file regenerated from /repo/src on this run)"
     rel_names = {s["name"] for s in relevant}
     lost_rel = [l for l in lost if l["function"] in rel_names or l["trusted"]]
@@ -445,7 +465,7 @@ def run_for(prop, tier, only=None):
     extracted = {f["name"]: f for f in fns}
     for s in relevant:
         f = extracted.get(s["name"])
-        if f is None:
+        if f is None or f.get("demoted"):
             continue
         fb = per_fn.get(s["name"])
         row = {"function": s["name"], "repo_location": "%s:%d" % (f["file"], f["line"]), "body_sha256_16": f["sha"],
